@@ -164,6 +164,21 @@ fn binary(x: u64, y: u64) -> Result<(), String> {
     if from_pos.to_u64() != want {
         return Err(format!("C18 collecting the squares of {x:#018x} then {y:#018x} then {x:#018x} again gives {:#018x}, the set union is {want:#018x}", from_pos.to_u64()));
     }
+    // ... also through adaptors whose size_hint lower bound is 0 although they yield squares
+    let via_filter: BitBoard = a.iter().chain(b.iter()).filter(|_| true).collect();
+    let via_flat: BitBoard = [a, b].into_iter().flat_map(|x| x.iter()).collect();
+    let mut src = a.iter().chain(b.iter());
+    let via_from_fn: BitBoard = std::iter::from_fn(|| src.next()).collect();
+    let via_take_while: BitBoard = a.iter().chain(b.iter()).take_while(|_| true).collect();
+    for (name, got) in [("filter", via_filter), ("flat_map", via_flat), ("from_fn", via_from_fn), ("take_while", via_take_while)] {
+        if got.to_u64() != want {
+            return Err(format!("C18 collecting the squares of {x:#018x} and {y:#018x} through `{name}` gives {:#018x}, the set union is {want:#018x}", got.to_u64()));
+        }
+    }
+    let boards_filter: BitBoard = [a, b].into_iter().filter(|_| true).collect();
+    if boards_filter.to_u64() != want {
+        return Err(format!("C18 collecting the boards {x:#018x}, {y:#018x} through `filter` gives {:#018x}, the set union is {want:#018x}", boards_filter.to_u64()));
+    }
     let from_boards: BitBoard = [a, b, a, b].into_iter().collect();
     if from_boards.to_u64() != want {
         return Err(format!("C18 collecting the boards {x:#018x}, {y:#018x} twice gives {:#018x}, the set union is {want:#018x}", from_boards.to_u64()));
